@@ -13,10 +13,12 @@
    After the repairs (splitPattern; leveldb seek guard; prefixFilterEntries' lastFileName;
    refills keep lastFileName) the full statement holds for every store, directory and
    request, except when a prefix AND a name pattern are given together (the code documents
-   them as mutually exclusive): finding 0, decidable trigger [trig_both]. *)
+   them as mutually exclusive) AND the pattern's literal prefix is empty or does not extend the
+   requested prefix: finding 0, decidable trigger [trig_narrow] (a subset of [trig_both]).
+   Callbacks that stop a listing early: see the c19_stop_* theorems (finding 1). *)
 From Coq Require Import List NArith Bool String Ascii Arith.
 From SW Require Import model.Listing proof.ListingBase proof.ListingStore proof.ListingScan proof.ListingPattern
-                       proof.ListingProofs proof.ListingWitness.
+                       proof.ListingProofs proof.ListingWitness proof.ListingStop.
 Import ListNotations.
 Local Open Scope string_scope.
 Local Open Scope list_scope.
@@ -26,7 +28,7 @@ Local Open Scope list_scope.
    the first [limit] matches in name order, hasMore tells whether more exist, and only
    expired children were removed from the directory *)
 Theorem c19_exact_partial : forall s d start incl limit prefix pat excl,
-  wf d -> trig_both prefix pat = false ->
+  wf d -> trig_narrow prefix pat = false ->
   exists names more r,
     list_entries s d start incl limit prefix pat excl = Some (names, more, r) /\
     names = firstn limit (spec_names d start incl prefix pat excl) /\
@@ -57,18 +59,28 @@ Theorem c19_stream : forall s d start incl limit prefix pat excl, wf d ->
 Proof. exact stream_list_spec. Qed.
 Print Assumptions c19_stream.
 
+(* full: the returned lastFileName of a prefix/pattern/exclusion listing is a correct place to
+   continue from (exclusive): what follows it is the selection behind the page *)
+Theorem c19_stream_last : forall s d start incl limit prefix pat excl, wf d ->
+  exists r, stream_list s d start incl limit prefix pat excl = Some r /\
+    (r_last r <> "" ->
+     impl_sel (r_last r) false prefix pat excl (r_dir r) = skipn limit (impl_sel start incl prefix pat excl d)) /\
+    (r_last r = "" -> r_names r = []).
+Proof. exact stream_last_cont. Qed.
+Print Assumptions c19_stream_last.
+
 (* ... and unless prefix and pattern are given together that selection is the requested one *)
 Theorem c19_pattern_split : forall prefix pat excl n,
-  trig_both prefix pat = false ->
+  trig_narrow prefix pat = false ->
   String.prefix (eff_prefix prefix pat) n && negb (missed (eff_prefix prefix pat) (snd (split_pattern pat)) excl n) =
   spec_match prefix pat excl n.
-Proof. exact match_agrees. Qed.
+Proof. exact match_agrees_narrow. Qed.
 Print Assumptions c19_pattern_split.
 
 (* refuted inside the trigger (witnesses confirmed on the real Filer, all stores) *)
 Theorem c19_exact_refuted_prefix_and_pattern :
   let d := live_dir ["a"; "ab"; "b"] in
-  wf d /\ trig_both "b" "a*" = true /\
+  wf d /\ trig_narrow "b" "a*" = true /\
   (exists r, list_entries Lvl d "" false 10 "b" "a*" "" = Some (["a"; "ab"], false, r)) /\
   (exists r, list_entries Gen d "" false 10 "b" "a*" "" = Some (["a"; "ab"], false, r)) /\
   spec_names d "" false "b" "a*" "" = [] /\
@@ -78,7 +90,7 @@ Print Assumptions c19_exact_refuted_prefix_and_pattern.
 
 Theorem c19_exact_refuted_prefix_and_pattern_rest :
   let d := live_dir ["a"; "ab"; "b"] in
-  wf d /\ trig_both "a" "?b" = true /\
+  wf d /\ trig_narrow "a" "?b" = true /\
   (exists r, list_entries Lvl d "" false 10 "a" "?b" "" = Some ([], false, r)) /\
   spec_names d "" false "a" "?b" "" = ["ab"] /\
   ~ exact_at Lvl d "" false 10 "a" "?b" "".
@@ -90,7 +102,7 @@ Print Assumptions c19_exact_refuted_prefix_and_pattern_rest.
    enumerates the matches exactly once and in order, whatever the number of pages and the
    expired children deleted on the way (page size >= 1; fuel > number of matches) *)
 Theorem c19_paginate : forall fuel s d start incl limit prefix pat excl,
-  wf d -> trig_both prefix pat = false -> 0 < limit ->
+  wf d -> trig_narrow prefix pat = false -> 0 < limit ->
   List.length (spec_names d start incl prefix pat excl) < fuel ->
   exists pages, paginate fuel s d start incl limit prefix pat excl = Some pages /\
                 List.concat pages = spec_names d start incl prefix pat excl /\
@@ -106,6 +118,49 @@ Theorem c19_paginate_stream : forall fuel s d start incl limit prefix,
                 Forall (fun pg => List.length pg <= limit) pages.
 Proof. exact paginate_stream_exact. Qed.
 Print Assumptions c19_paginate_stream.
+
+(* ---------- callbacks that stop the listing (finding 1) ---------- *)
+(* partial (trigger: the callback answers false at some call): with a callback that never
+   refuses, the stop-aware StreamListDirectoryEntries IS the listing of the first part ... *)
+Theorem c19_stop_partial_same : forall s d start incl limit prefix pat excl ans,
+  trig_stop ans = false ->
+  match stream_list s d start incl limit prefix pat excl with
+  | Some r => exists rs, stream_list_s s d start incl limit prefix pat excl ans = Some rs /\
+                         s_names rs = r_names r /\ s_last rs = r_last r /\ s_dir rs = r_dir r /\ s_miss rs = 0
+  | None => stream_list_s s d start incl limit prefix pat excl ans = None
+  end.
+Proof. exact stream_list_s_true. Qed.
+Print Assumptions c19_stop_partial_same.
+
+(* ... hence terminates and emits exactly the first [limit] entries of the selection *)
+Theorem c19_stop_partial : forall s d start incl limit prefix pat excl ans,
+  wf d -> trig_stop ans = false ->
+  exists rs, stream_list_s s d start incl limit prefix pat excl ans = Some rs /\
+    s_names rs = map ename (firstn limit (impl_sel start incl prefix pat excl d)) /\
+    wf (s_dir rs) /\ filter elive (s_dir rs) = filter elive d.
+Proof. exact stream_list_s_exact. Qed.
+Print Assumptions c19_stop_partial.
+
+(* refuted inside the trigger: a callback that returned false on its first call is called
+   again by both refill loops (witnesses confirmed on the real Filer, all stores) *)
+Theorem c19_stop_refuted :
+  wf stop_dir /\ wf stop_dir_live /\ trig_stop [false] = true /\
+  s_proj (stream_list_s Lvl stop_dir "" false 3 "" "" "" [false]) = Some (["b"; "c"], "c") /\
+  s_proj (stream_list_s Gen stop_dir "" false 3 "" "" "" [false]) = Some (["b"; "c"], "c") /\
+  s_proj (stream_list_s Lvl stop_dir_live "" false 2 "" "" "a" [false]) = Some (["b"; "c"], "c") /\
+  s_proj (stream_list_s Gen stop_dir_live "" false 2 "" "" "a" [false]) = Some (["b"; "c"], "c") /\
+  stop_respected [false] ["b"; "c"] = false.
+Proof. exact stop_refuted. Qed.
+Print Assumptions c19_stop_refuted.
+
+(* refuted: "at most the limit" for the gRPC server's loop (overall limit 3, page size 2) *)
+Theorem c19_grpc_limit_refuted :
+  wf grpc_dir /\
+  grpc_list 10 Lvl grpc_dir "" false 3 2 "" = Some [["a"; "b"]; ["d"; "e"]] /\
+  grpc_list 10 Gen grpc_dir "" false 3 2 "" = Some [["a"; "b"]; ["d"; "e"]] /\
+  firstn 3 (spec_names grpc_dir "" false "" "" "") = ["a"; "b"; "d"].
+Proof. exact grpc_refuted. Qed.
+Print Assumptions c19_grpc_limit_refuted.
 
 (* ---------- c19_expired_refill ---------- *)
 (* full: doListValidEntries terminates; the page of valid entries is the first [limit] LIVE
@@ -136,10 +191,11 @@ Example c19_repaired_witnesses :
   (exists r, list_entries Lvl [("a", false); ("b", false); ("c", true)] "" false 2 "" "*a" "" = Some (["a"], false, r)) /\
   paginate_stream 10 Lvl [("a", false); ("b", true)] "" false 3 "" = Some [["a"]].
 Proof. exact repaired_witnesses. Qed.
+Print Assumptions c19_repaired_witnesses.
 
 Example c19_example_exact :
   wf ex_dir /\
-  trig_both "" "a*" = false /\
+  trig_narrow "" "a*" = false /\
   (exists r, list_entries Lvl ex_dir "a" false 1 "" "a*" "*c" = Some (["ab"], false, r) /\
              map ename (r_dir r) = ["a"; "ab"; "b"; "b0"; "ba"; "c"]) /\
   (exists r, list_entries Gen ex_dir "a" false 1 "" "a*" "*c" = Some (["ab"], false, r) /\
@@ -147,6 +203,7 @@ Example c19_example_exact :
   (exists r, list_entries Lvl ex_dir "" false 2 "b" "" "" = Some (["b"; "ba"], false, r)) /\
   (exists r, list_entries Gen ex_dir "" false 1 "b" "" "" = Some (["b"], true, r)).
 Proof. exact exact_example. Qed.
+Print Assumptions c19_example_exact.
 
 Example c19_example_paginate :
   paginate 10 Lvl ex_dir "" false 2 "" "" "a*" = Some [["b"; "ba"]; ["c"]] /\
@@ -155,8 +212,26 @@ Example c19_example_paginate :
   paginate_stream 10 Gen ex_dir "" false 2 "a" = Some [["a"; "ab"]] /\
   spec_names ex_dir "" false "" "" "a*" = ["b"; "ba"; "c"].
 Proof. exact paginate_example. Qed.
+Print Assumptions c19_example_paginate.
 
 Example c19_example_refill :
   exists r, list_valid Lvl ex_dir "" true 3 "a" = Some r /\
             r_names r = ["a"; "ab"] /\ map ename (r_dir r) = ["a"; "ab"; "b"; "b0"; "ba"; "c"].
 Proof. exact refill_example. Qed.
+Print Assumptions c19_example_refill.
+
+Example c19_example_narrow :
+  trig_both "a" "ab*" = true /\ trig_narrow "a" "ab*" = false /\
+  (exists r, list_entries Lvl ex_dir "" false 5 "a" "ab*" "" = Some (["ab"], false, r)) /\
+  (exists r, list_entries Gen ex_dir "" false 5 "a" "ab*" "" = Some (["ab"], false, r)) /\
+  spec_names ex_dir "" false "a" "ab*" "" = ["ab"].
+Proof. exact narrow_example. Qed.
+Print Assumptions c19_example_narrow.
+
+Example c19_example_stop :
+  trig_stop [true; true] = false /\
+  s_proj (stream_list_s Lvl stop_dir "" false 2 "" "" "" [true; true]) = Some (["b"; "c"], "c") /\
+  s_proj (stream_list_s Gen stop_dir "" false 2 "" "*" "d" [true; true]) = Some (["b"; "c"], "c") /\
+  s_proj (stream_list_s Lvl stop_dir_live "" false 3 "" "" "" [true; false]) = Some (["a"; "b"], "b").
+Proof. exact stop_example. Qed.
+Print Assumptions c19_example_stop.
